@@ -2253,3 +2253,349 @@ Qed.
    relative to a predicate on vectors preserved by smoothers, residual, restriction, prolongation (each of them is
    right-linear, so it preserves  x = x E_00).  Not done.
    On the implementation the full statement is CHECKED exactly for all five smoothers (tools/props/c02_block.py). *)
+
+(* ================================================================== *)
+(* A3 for block values with a DIRECT coarse solve (WZ6).  AmgBlockCycleSym4.v: the method of consistent / dual iterations
+   relative to a SUBSPACE of vectors  { x : x_i * e = x_i }  of a non-commutative ring of values (at static_matrix<T,b,b>,
+   e = E_00: the column vectors static_matrix<T,b,1> embedded as column-0 blocks -- the only vectors of the C++).  Every
+   operator of the cycle is right-linear, hence preserves the subspace; the coarse solver has to be hermitian and closed
+   ON THE SUBSPACE only.  AmgBlockCycleSym4Solve.v: mk_solve_block returns column vectors and, for a hermitian block matrix
+   with a solvable expanded system, is self-adjoint on column vectors (the expanded matrix is hermitian, A u = f, A w = g,
+   <u, g> = <u, A w> = <A u, w> = <f, w>; the block form of two column vectors has its (0,0) cell only, and that cell is the
+   scalar form of the flattened vectors).  This replaces the (unsatisfiable, C02_block_coarse_solve_not_hermitian_on_general_blocks)
+   hypothesis solve_symH of C02_apply_symmetric_blocks_full. *)
+From Amgcl Require Import AmgBlockCycleLin AmgBlockCycleSym4 AmgBlockCycleSym4Solve AmgBlockCycleSym4Block.
+
+(* the cycle theorem relative to the subspace, abstract hierarchy *)
+Theorem C02_apply_hermitian_on_subspace_nc {S : Scalar} (Hnc : ncring_theory S) (Seqb : seqb_spec S)
+  (adj_add : forall a b : S, sadj (a + b) = sadj a + sadj b)
+  (adj_mul : forall a b : S, sadj (a * b) = sadj b * sadj a)
+  (adj_inv : forall a : S, sadj (sadj a) = a) (e : S) k nc pc (lvls : list (@level S)) :
+  hier_hermP e lvls -> lvls <> [] -> (pc = 0 \/ nosolve_top lvls) ->
+  forall scr1 scr2 f g x1 x2,
+  scratch_wf lvls scr1 -> scratch_wf lvls scr2 ->
+  length f = top_n lvls -> length g = top_n lvls -> length x1 = top_n lvls -> length x2 = top_n lvls ->
+  Pv e f -> Pv e g ->
+  ipH (top_n lvls) (fst (apply k k nc (Datatypes.S pc) lvls scr1 f x1)) g =
+  ipH (top_n lvls) f (fst (apply k k nc (Datatypes.S pc) lvls scr2 g x2)).
+Proof. exact (apply_herm_fullP Hnc Seqb adj_add adj_mul adj_inv e k nc pc lvls). Qed.
+Print Assumptions C02_apply_hermitian_on_subspace_nc.
+
+(* a right-linear sweep (every smoother of mk_relax5: C02 mk_relax5_rlin) preserves the subspace *)
+Theorem C02_right_linear_sweep_preserves_subspace {S : Scalar} (Hnc : ncring_theory S) (e : S) n (sw : @sweep S) :
+  sweep_ok n sw -> sweep_rlin (fun _ => True) n sw -> sweep_P e n sw.
+Proof. exact (sweep_rlin_P Hnc e n sw). Qed.
+Print Assumptions C02_right_linear_sweep_preserves_subspace.
+
+(* the block coarse solver on column vectors *)
+Theorem C02_block_coarse_solve_returns_column_vectors (S0 : Scalar) (b : nat) (Srt : Sring S0) (Hb : 0 < b)
+  (A : crs (BlockS S0 b)) (rhs x : vec (BlockS S0 b)) :
+  colvecB S0 b x -> colvecB S0 b (mk_solve_block S0 b A rhs x).
+Proof. exact (mk_solve_block_colvec S0 b Srt Hb A rhs x). Qed.
+Print Assumptions C02_block_coarse_solve_returns_column_vectors.
+
+Theorem C02_block_coarse_solve_hermitian_on_column_vectors (S0 : Scalar) (b : nat) (Sft : Sfield S0) (Seqb0 : seqb_spec S0)
+  (Hb : 0 < b)
+  (sadj_add0 : forall x y : S0, sadj (x + y) = sadj x + sadj y)
+  (sadj_mul0 : forall x y : S0, sadj (x * y) = sadj x * sadj y) (A : crs (BlockS S0 b)) :
+  wf A = true -> herm_mat (S := BlockS S0 b) (nrows A) A -> solvable_block S0 b A = true ->
+  forall f g x y : vec (BlockS S0 b),
+  length f = nrows A -> length g = nrows A -> length x = nrows A -> length y = nrows A ->
+  colvecB S0 b f -> colvecB S0 b g ->
+  ipH (S := BlockS S0 b) (nrows A) (mk_solve_block S0 b A f x) g =
+  ipH (S := BlockS S0 b) (nrows A) f (mk_solve_block S0 b A g y).
+Proof. exact (mk_solve_block_symH_col S0 b Sft Seqb0 Hb sadj_add0 sadj_mul0 A). Qed.
+Print Assumptions C02_block_coarse_solve_hermitian_on_column_vectors.
+
+(* static_matrix<T,b,b>, T a field: hierarchies of amg_init, direct_coarse true or false, smoothers of mk_relax5 under good5
+   (damped Jacobi / SPAI-0: hermitian scaled inverted diagonal blocks; Gauss-Seidel forward / backward: invertible stored
+   diagonal blocks), npre = npost = k, any ncycle, pre_cycles = pc + 1 >= 1 (pc = 0 when the hierarchy is the solver alone),
+   f, g column vectors; the ONLY hypothesis on the coarse solver: the expanded system is solvable *)
+Theorem C02_apply_symmetric_blocks_direct_coarse (S0 : Scalar) (b : nat) (Sft : Sfield S0) (Seqb0 : seqb_spec S0) (Hb : 0 < b)
+  (sadj_add0 : forall x y : S0, sadj (x + y) = sadj x + sadj y)
+  (sadj_mul0 : forall x y : S0, sadj (x * y) = sadj x * sadj y)
+  (sadj_invol0 : forall x : S0, sadj (sadj x) = x)
+  (k5 : @relax5 (BlockS S0 b)) ce dc ml (sc : option (BlockS S0 b)) ts (M : crs (BlockS S0 b)) k nc pc :
+  scale_herm sc -> wf M = true -> herm_mat (nrows M) M -> ts_herm (nrows M) ts ->
+  (forall A, In (LSolve A) (amg_init ce dc ml (coarse_op_of sc) ts M) -> solvable_block S0 b A = true) ->
+  (forall l, In l (amg_init ce dc ml (coarse_op_of sc) ts M) -> good5 k5 (ld_A l)) ->
+  let lvls := block_levels S0 b k5 (amg_init ce dc ml (coarse_op_of sc) ts M) in
+  (pc = 0 \/ nosolve_top lvls) ->
+  forall scr1 scr2 f g x1 x2,
+  scratch_wf lvls scr1 -> scratch_wf lvls scr2 ->
+  length f = nrows M -> length g = nrows M -> length x1 = nrows M -> length x2 = nrows M ->
+  colvecB S0 b f -> colvecB S0 b g ->
+  ipH (S := BlockS S0 b) (nrows M) (fst (apply k k nc (Datatypes.S pc) lvls scr1 f x1)) g =
+  ipH (S := BlockS S0 b) (nrows M) f (fst (apply k k nc (Datatypes.S pc) lvls scr2 g x2)).
+Proof.
+  exact (block_apply_herm_direct_coarse S0 b Sft Seqb0 Hb sadj_add0 sadj_mul0 sadj_invol0 k5 ce dc ml sc ts M k nc pc).
+Qed.
+Print Assumptions C02_apply_symmetric_blocks_direct_coarse.
+
+Theorem C02_apply_symmetric_blocks_direct_coarse_Qc (b : nat) (Hb : 0 < b) (k5 : @relax5 (BlockS QcS b)) ce dc ml
+  (sc : option (BlockS QcS b)) ts (M : crs (BlockS QcS b)) k nc pc :
+  scale_herm sc -> wf M = true -> herm_mat (nrows M) M -> ts_herm (nrows M) ts ->
+  (forall A, In (LSolve A) (amg_init ce dc ml (coarse_op_of sc) ts M) -> solvable_block QcS b A = true) ->
+  (forall l, In l (amg_init ce dc ml (coarse_op_of sc) ts M) -> good5 k5 (ld_A l)) ->
+  let lvls := block_levels QcS b k5 (amg_init ce dc ml (coarse_op_of sc) ts M) in
+  (pc = 0 \/ nosolve_top lvls) ->
+  forall scr1 scr2 f g x1 x2,
+  scratch_wf lvls scr1 -> scratch_wf lvls scr2 ->
+  length f = nrows M -> length g = nrows M -> length x1 = nrows M -> length x2 = nrows M ->
+  colvecB QcS b f -> colvecB QcS b g ->
+  ipH (S := BlockS QcS b) (nrows M) (fst (apply k k nc (Datatypes.S pc) lvls scr1 f x1)) g =
+  ipH (S := BlockS QcS b) (nrows M) f (fst (apply k k nc (Datatypes.S pc) lvls scr2 g x2)).
+Proof. exact (block_apply_herm_direct_coarse_Qc b Hb k5 ce dc ml sc ts M k nc pc). Qed.
+Print Assumptions C02_apply_symmetric_blocks_direct_coarse_Qc.
+
+(* ILU(0) above a direct coarse solve: structural level condition of C02_apply_symmetric_blocks_ilu0_structural *)
+Theorem C02_apply_symmetric_blocks_ilu0_direct_coarse (S0 : Scalar) (b : nat) (Sft : Sfield S0) (Seqb0 : seqb_spec S0)
+  (Hb : 0 < b)
+  (sadj_add0 : forall x y : S0, sadj (x + y) = sadj x + sadj y)
+  (sadj_mul0 : forall x y : S0, sadj (x * y) = sadj x * sadj y)
+  (sadj_invol0 : forall x : S0, sadj (sadj x) = x) (sinv_0 : sinv (@s0 S0) = s0)
+  (w : BlockS S0 b) ce dc ml (sc : option (BlockS S0 b)) ts (M : crs (BlockS S0 b)) k nc pc :
+  sadj w = w -> (forall c : BlockS S0 b, w * c = c * w) ->
+  scale_herm sc -> wf M = true -> herm_mat (nrows M) M -> ts_herm (nrows M) ts ->
+  (forall A, In (LSolve A) (amg_init ce dc ml (coarse_op_of sc) ts M) -> solvable_block S0 b A = true) ->
+  (forall l, In l (amg_init ce dc ml (coarse_op_of sc) ts M) -> ilu0_level_ok_nc (S := BlockS S0 b) (ld_A l)) ->
+  let lvls := block_levels S0 b (R5Ilu0 w) (amg_init ce dc ml (coarse_op_of sc) ts M) in
+  (pc = 0 \/ nosolve_top lvls) ->
+  forall scr1 scr2 f g x1 x2,
+  scratch_wf lvls scr1 -> scratch_wf lvls scr2 ->
+  length f = nrows M -> length g = nrows M -> length x1 = nrows M -> length x2 = nrows M ->
+  colvecB S0 b f -> colvecB S0 b g ->
+  ipH (S := BlockS S0 b) (nrows M) (fst (apply k k nc (Datatypes.S pc) lvls scr1 f x1)) g =
+  ipH (S := BlockS S0 b) (nrows M) f (fst (apply k k nc (Datatypes.S pc) lvls scr2 g x2)).
+Proof.
+  exact (block_apply_herm_ilu0_direct_coarse S0 b Sft Seqb0 Hb sadj_add0 sadj_mul0 sadj_invol0 sinv_0 w
+           ce dc ml sc ts M k nc pc).
+Qed.
+Print Assumptions C02_apply_symmetric_blocks_ilu0_direct_coarse.
+
+(* Chebyshev above a direct coarse solve: coefficient condition of C02_apply_symmetric_blocks_chebyshev *)
+Theorem C02_apply_symmetric_blocks_chebyshev_direct_coarse (S0 : Scalar) (b : nat) (Sft : Sfield S0) (Seqb0 : seqb_spec S0)
+  (Hb : 0 < b)
+  (sadj_add0 : forall x y : S0, sadj (x + y) = sadj x + sadj y)
+  (sadj_mul0 : forall x y : S0, sadj (x * y) = sadj x * sadj y)
+  (sadj_invol0 : forall x : S0, sadj (sadj x) = x)
+  degree (lower higher : BlockS S0 b) scale ce dc ml (sc : option (BlockS S0 b)) ts (M : crs (BlockS S0 b)) k nc pc :
+  scale_herm sc -> wf M = true -> herm_mat (nrows M) M -> ts_herm (nrows M) ts ->
+  (forall A, In (LSolve A) (amg_init ce dc ml (coarse_op_of sc) ts M) -> solvable_block S0 b A = true) ->
+  (forall l, In l (amg_init ce dc ml (coarse_op_of sc) ts M) ->
+             cheby_coefs_herm (S := BlockS S0 b) degree lower higher scale (ld_A l)) ->
+  let lvls := block_levels S0 b (R5Cheby degree lower higher scale) (amg_init ce dc ml (coarse_op_of sc) ts M) in
+  (pc = 0 \/ nosolve_top lvls) ->
+  forall scr1 scr2 f g x1 x2,
+  scratch_wf lvls scr1 -> scratch_wf lvls scr2 ->
+  length f = nrows M -> length g = nrows M -> length x1 = nrows M -> length x2 = nrows M ->
+  colvecB S0 b f -> colvecB S0 b g ->
+  ipH (S := BlockS S0 b) (nrows M) (fst (apply k k nc (Datatypes.S pc) lvls scr1 f x1)) g =
+  ipH (S := BlockS S0 b) (nrows M) f (fst (apply k k nc (Datatypes.S pc) lvls scr2 g x2)).
+Proof.
+  exact (block_apply_herm_cheby_direct_coarse S0 b Sft Seqb0 Hb sadj_add0 sadj_mul0 sadj_invol0 degree lower higher scale
+           ce dc ml sc ts M k nc pc).
+Qed.
+Print Assumptions C02_apply_symmetric_blocks_chebyshev_direct_coarse.
+
+(* non-vacuity on the two-level hierarchy exBH of AmgBlockCycleExample.v (non-commuting 2 x 2 blocks, DIRECT solver on
+   the 2 x 2 block coarse level): every hypothesis of C02_apply_symmetric_blocks_direct_coarse_Qc holds for symmetric
+   Gauss-Seidel and for damped Jacobi, the right-hand sides are column vectors, and the identity for a W(2,2)-cycle with
+   pre_cycles = 2, evaluated inside Coq; the junk vector of the example is NOT a column vector *)
+Example C02_example_blocks_direct_coarse_symmetric :
+  let kgs := R5Std (S := B2) (RGS (S := B2)) in
+  scale_herm (S := B2) (Some exBhalf) /\ wf exBM = true /\ herm_mat (S := B2) (nrows exBM) exBM /\
+  ts_herm (S := B2) (nrows exBM) exBTs /\
+  (forall A, In (LSolve A) exBH -> solvable_block QcS 2 A = true) /\
+  existsb (fun l => match l with LSolve _ => true | _ => false end) exBH = true /\
+  (forall l, In l exBH -> good5 kgs (ld_A l)) /\ (forall l, In l exBH -> good5 exBJac (ld_A l)) /\
+  nosolve_top (block_levels QcS 2 kgs exBH) /\
+  colvecB QcS 2 exBF /\ colvecB QcS 2 exBG /\ ~ colvecB QcS 2 exBJunk /\
+  seqb (s := B2)
+    (ipH (S := B2) 3 (fst (apply 2 2 2 2 (block_levels QcS 2 kgs exBH) exBScr0 exBF exBZ)) exBG)
+    (ipH (S := B2) 3 exBF (fst (apply 2 2 2 2 (block_levels QcS 2 kgs exBH) exBScr0 exBG exBZ))) = true /\
+  seqb (s := B2)
+    (ipH (S := B2) 3 (fst (apply 1 1 1 1 (block_levels QcS 2 exBJac exBH) exBScr0 exBF exBZ)) exBG)
+    (ipH (S := B2) 3 exBF (fst (apply 1 1 1 1 (block_levels QcS 2 exBJac exBH) exBScr0 exBG exBZ))) = true.
+Proof.
+  cbv zeta.
+  split; [apply (scale_herm_embed QcS 2 QcS_ring); reflexivity|].
+  split; [vm_compute; reflexivity|].
+  split; [apply (herm_matb_ok (BlockS_eqb QcS 2 QcS_eqb)); vm_compute; reflexivity|].
+  split; [apply (ts_hermb_ok (BlockS_eqb QcS 2 QcS_eqb)); vm_compute; reflexivity|].
+  split; [intros A HA; apply (solve_check_block_ok exBH); [vm_compute; reflexivity|exact HA]|].
+  split; [vm_compute; reflexivity|].
+  split; [apply (levels_gs_okb_ok (BlockS_eqb QcS 2 QcS_eqb)); vm_compute; reflexivity|].
+  split; [intros l Hl; apply (levels_goodb_ok (BlockS_eqb QcS 2 QcS_eqb) exBJac exBH); [vm_compute; reflexivity|exact Hl]|].
+  split; [apply block_levels_nosolve_top; vm_compute; lia|].
+  split; [apply (colvecBb_ok QcS 2 QcS_field QcS_eqb); vm_compute; reflexivity|].
+  split; [apply (colvecBb_ok QcS 2 QcS_field QcS_eqb); vm_compute; reflexivity|].
+  split; [intro H; specialize (H 0); apply (proj2 (BlockS_eqb QcS 2 QcS_eqb _ _)) in H; vm_compute in H; discriminate H|].
+  split; vm_compute; reflexivity.
+Qed.
+
+(* ================================================================== *)
+(* Block Chebyshev, the coefficient condition discharged for SCALAR bounds (WZ6, AmgBlockCycleSym4Cheb.v): the embedded
+   self-conjugate base scalars c*I of static_matrix<T,b,b> (T a field, sinv 0 = 0, the pivot-order laws of the dense
+   inverse) are closed under + - * and sinv (C02_block_embedded_scalar_inverse: sinv (c I) = c^-1 I through the pivoted LU
+   model of detail::inverse; the zero block takes the default), hence alpha_k, beta_k of the Chebyshev recurrence are embedded
+   self-conjugate scalars -- central and hermitian -- as soon as lower, higher and the Gershgorin bound are.  The bound of the
+   model always IS an embedded scalar (sabs of a block = its Frobenius norm times I; C02_block_gershgorin_bound_is_scalar,
+   self-conjugacy of the norm as hypothesis, trivial at Qc).  What is left of cheby_coefs_herm: the entries of the scaling
+   vector (inverted diagonal blocks) are hermitian -- nothing for scale = false. *)
+From Amgcl Require Import InversePivotQc AmgBlockCycleSym4Cheb.
+
+Theorem C02_block_embedded_scalar_inverse (S0 : Scalar) (b : nat) (Sft : Sfield S0) (Seqb0 : seqb_spec S0)
+  (sinv_0 : sinv (@s0 S0) = s0) (Hb : 0 < b)
+  (Olt_irrefl : forall a : S0, sltb a a = false)
+  (Olt_trans : forall a c d : S0, sltb a c = true -> sltb c d = true -> sltb a d = true)
+  (Oabs_0 : sabs (@s0 S0) = s0) (Oabs_pos : forall x : S0, x <> s0 -> sltb s0 (sabs x) = true) (c : S0) :
+  sinv (s := BlockS S0 b) (blk_embed S0 b c) = blk_embed S0 b (sinv c).
+Proof. exact (emb_inv S0 b Sft Seqb0 sinv_0 Hb Olt_irrefl Olt_trans Oabs_0 Oabs_pos c). Qed.
+Print Assumptions C02_block_embedded_scalar_inverse.
+
+Theorem C02_block_gershgorin_bound_is_scalar (S0 : Scalar) (b : nat) (Sft : Sfield S0)
+  (sadj_add0 : forall x y : S0, sadj (x + y) = sadj x + sadj y)
+  (sadj_mul0 : forall x y : S0, sadj (x * y) = sadj x * sadj y)
+  (sadj_invol0 : forall x : S0, sadj (sadj x) = x)
+  (Hnorm : forall l : vec S0, sadj (sm_norm l) = sm_norm l) scale (A : crs (BlockS S0 b)) :
+  exists rho : S0, gershgorin scale A = blk_embed S0 b rho /\ sadj rho = rho.
+Proof. exact (emb_sc_gershgorin S0 b Sft sadj_add0 sadj_mul0 sadj_invol0 Hnorm scale A). Qed.
+Print Assumptions C02_block_gershgorin_bound_is_scalar.
+
+Theorem C02_chebyshev_coefficients_hermitian_scalar_bounds (S0 : Scalar) (b : nat) (Sft : Sfield S0) (Seqb0 : seqb_spec S0)
+  (sinv_0 : sinv (@s0 S0) = s0) (Hb : 0 < b)
+  (Olt_irrefl : forall a : S0, sltb a a = false)
+  (Olt_trans : forall a c d : S0, sltb a c = true -> sltb c d = true -> sltb a d = true)
+  (Oabs_0 : sabs (@s0 S0) = s0) (Oabs_pos : forall x : S0, x <> s0 -> sltb s0 (sabs x) = true)
+  (sadj_add0 : forall x y : S0, sadj (x + y) = sadj x + sadj y)
+  (sadj_mul0 : forall x y : S0, sadj (x * y) = sadj x * sadj y)
+  (sadj_invol0 : forall x : S0, sadj (sadj x) = x)
+  degree (lo hi : S0) scale (A : crs (BlockS S0 b)) :
+  sadj lo = lo -> sadj hi = hi ->
+  (exists rho : S0, gershgorin scale A = blk_embed S0 b rho /\ sadj rho = rho) ->
+  (forall i, i < nrows A ->
+     sadj (mu (snd (cheby_setup scale A (gershgorin scale A) (blk_embed S0 b lo : BlockS S0 b) (blk_embed S0 b hi)
+                      (vzero (nrows A)))) i) =
+     mu (snd (cheby_setup scale A (gershgorin scale A) (blk_embed S0 b lo : BlockS S0 b) (blk_embed S0 b hi)
+                (vzero (nrows A)))) i) ->
+  cheby_coefs_herm (S := BlockS S0 b) degree (blk_embed S0 b lo) (blk_embed S0 b hi) scale A.
+Proof.
+  exact (cheby_coefs_herm_embedded S0 b Sft Seqb0 sinv_0 Hb Olt_irrefl Olt_trans Oabs_0 Oabs_pos sadj_add0 sadj_mul0
+           sadj_invol0 degree lo hi scale A).
+Qed.
+Print Assumptions C02_chebyshev_coefficients_hermitian_scalar_bounds.
+
+Theorem C02_apply_symmetric_blocks_chebyshev_scalar_bounds (S0 : Scalar) (b : nat) (Sft : Sfield S0) (Seqb0 : seqb_spec S0)
+  (sinv_0 : sinv (@s0 S0) = s0) (Hb : 0 < b)
+  (Olt_irrefl : forall a : S0, sltb a a = false)
+  (Olt_trans : forall a c d : S0, sltb a c = true -> sltb c d = true -> sltb a d = true)
+  (Oabs_0 : sabs (@s0 S0) = s0) (Oabs_pos : forall x : S0, x <> s0 -> sltb s0 (sabs x) = true)
+  (sadj_add0 : forall x y : S0, sadj (x + y) = sadj x + sadj y)
+  (sadj_mul0 : forall x y : S0, sadj (x * y) = sadj x * sadj y)
+  (sadj_invol0 : forall x : S0, sadj (sadj x) = x)
+  degree (lo hi : S0) scale ce ml (sc : option (BlockS S0 b)) ts (M : crs (BlockS S0 b)) k nc pc :
+  sadj lo = lo -> sadj hi = hi ->
+  scale_herm sc -> wf M = true -> herm_mat (nrows M) M -> ts_herm (nrows M) ts ->
+  (forall l, In l (amg_init ce false ml (coarse_op_of sc) ts M) ->
+     (exists rho : S0, gershgorin scale (ld_A l) = blk_embed S0 b rho /\ sadj rho = rho) /\
+     (forall i, i < nrows (ld_A l) ->
+        sadj (mu (snd (cheby_setup scale (ld_A l) (gershgorin scale (ld_A l)) (blk_embed S0 b lo : BlockS S0 b)
+                         (blk_embed S0 b hi) (vzero (nrows (ld_A l))))) i) =
+        mu (snd (cheby_setup scale (ld_A l) (gershgorin scale (ld_A l)) (blk_embed S0 b lo : BlockS S0 b)
+                   (blk_embed S0 b hi) (vzero (nrows (ld_A l))))) i)) ->
+  let lvls := block_levels S0 b (R5Cheby (S := BlockS S0 b) degree (blk_embed S0 b lo) (blk_embed S0 b hi) scale)
+                (amg_init ce false ml (coarse_op_of sc) ts M) in
+  forall scr1 scr2 f g x1 x2,
+  scratch_wf lvls scr1 -> scratch_wf lvls scr2 ->
+  length f = nrows M -> length g = nrows M -> length x1 = nrows M -> length x2 = nrows M ->
+  ipH (S := BlockS S0 b) (nrows M) (fst (apply k k nc (Datatypes.S pc) lvls scr1 f x1)) g =
+  ipH (S := BlockS S0 b) (nrows M) f (fst (apply k k nc (Datatypes.S pc) lvls scr2 g x2)).
+Proof.
+  exact (block_apply_herm_cheby_scalar_bounds S0 b Sft Seqb0 sinv_0 Hb Olt_irrefl Olt_trans Oabs_0 Oabs_pos sadj_add0
+           sadj_mul0 sadj_invol0 degree lo hi scale ce ml sc ts M k nc pc).
+Qed.
+Print Assumptions C02_apply_symmetric_blocks_chebyshev_scalar_bounds.
+
+(* closed at the exact rationals; scale = false: NO smoother hypothesis is left *)
+Theorem C02_apply_symmetric_blocks_chebyshev_scalar_bounds_noscale_Qc (b : nat) (Hb : 0 < b)
+  degree (lo hi : QcS) ce ml (sc : option (BlockS QcS b)) ts (M : crs (BlockS QcS b)) k nc pc :
+  scale_herm sc -> wf M = true -> herm_mat (nrows M) M -> ts_herm (nrows M) ts ->
+  let lvls := block_levels QcS b (R5Cheby (S := BlockS QcS b) degree (blk_embed QcS b lo) (blk_embed QcS b hi) false)
+                (amg_init ce false ml (coarse_op_of sc) ts M) in
+  forall scr1 scr2 f g x1 x2,
+  scratch_wf lvls scr1 -> scratch_wf lvls scr2 ->
+  length f = nrows M -> length g = nrows M -> length x1 = nrows M -> length x2 = nrows M ->
+  ipH (S := BlockS QcS b) (nrows M) (fst (apply k k nc (Datatypes.S pc) lvls scr1 f x1)) g =
+  ipH (S := BlockS QcS b) (nrows M) f (fst (apply k k nc (Datatypes.S pc) lvls scr2 g x2)).
+Proof. exact (block_apply_herm_cheby_noscale_Qc b Hb degree lo hi ce ml sc ts M k nc pc). Qed.
+Print Assumptions C02_apply_symmetric_blocks_chebyshev_scalar_bounds_noscale_Qc.
+
+(* with diagonal scaling: the hermitian-ness of the scaling entries (inverted diagonal blocks) stays, per level *)
+Theorem C02_apply_symmetric_blocks_chebyshev_scalar_bounds_Qc (b : nat) (Hb : 0 < b)
+  degree (lo hi : QcS) scale ce ml (sc : option (BlockS QcS b)) ts (M : crs (BlockS QcS b)) k nc pc :
+  scale_herm sc -> wf M = true -> herm_mat (nrows M) M -> ts_herm (nrows M) ts ->
+  (forall l, In l (amg_init ce false ml (coarse_op_of sc) ts M) ->
+     forall i, i < nrows (ld_A l) ->
+        sadj (mu (snd (cheby_setup scale (ld_A l) (gershgorin scale (ld_A l)) (blk_embed QcS b lo : BlockS QcS b)
+                         (blk_embed QcS b hi) (vzero (nrows (ld_A l))))) i) =
+        mu (snd (cheby_setup scale (ld_A l) (gershgorin scale (ld_A l)) (blk_embed QcS b lo : BlockS QcS b)
+                   (blk_embed QcS b hi) (vzero (nrows (ld_A l))))) i) ->
+  let lvls := block_levels QcS b (R5Cheby (S := BlockS QcS b) degree (blk_embed QcS b lo) (blk_embed QcS b hi) scale)
+                (amg_init ce false ml (coarse_op_of sc) ts M) in
+  forall scr1 scr2 f g x1 x2,
+  scratch_wf lvls scr1 -> scratch_wf lvls scr2 ->
+  length f = nrows M -> length g = nrows M -> length x1 = nrows M -> length x2 = nrows M ->
+  ipH (S := BlockS QcS b) (nrows M) (fst (apply k k nc (Datatypes.S pc) lvls scr1 f x1)) g =
+  ipH (S := BlockS QcS b) (nrows M) f (fst (apply k k nc (Datatypes.S pc) lvls scr2 g x2)).
+Proof. exact (block_apply_herm_cheby_scaled_Qc b Hb degree lo hi scale ce ml sc ts M k nc pc). Qed.
+Print Assumptions C02_apply_symmetric_blocks_chebyshev_scalar_bounds_Qc.
+
+(* non-vacuity on exBH' (non-commuting 2 x 2 blocks): lo = 1/30, hi = 1; the Gershgorin bound of both levels is an embedded
+   rational, not zero, the scaling entries are hermitian; V(1,1)-cycle, degree 2, WITH diagonal scaling evaluated in Coq *)
+Example C02_example_blocks_chebyshev_scalar_bounds :
+  let lo := qc 1 30 in let hi := qc 1 1 in
+  let Bop := fun scale f =>
+    fst (apply 1 1 1 1 (block_levels QcS 2 (R5Cheby (S := B2) 2 (blk_embed QcS 2 lo) (blk_embed QcS 2 hi) scale) exBH')
+           (map (@fresh_scratch B2) exBH') f exBZ) in
+  scale_herm (S := B2) (Some exBhalf) /\ wf exBM = true /\ herm_mat (S := B2) (nrows exBM) exBM /\
+  ts_herm (S := B2) (nrows exBM) exBTs /\
+  length exBH' = 2 /\
+  (forall l, In l exBH' -> forall scale : bool,
+     (exists rho : QcS, gershgorin scale (ld_A l) = blk_embed QcS 2 rho /\ sadj rho = rho) /\
+     (forall i, i < nrows (ld_A l) ->
+        sadj (mu (snd (cheby_setup scale (ld_A l) (gershgorin scale (ld_A l)) (blk_embed QcS 2 lo : B2)
+                         (blk_embed QcS 2 hi) (vzero (nrows (ld_A l))))) i) =
+        mu (snd (cheby_setup scale (ld_A l) (gershgorin scale (ld_A l)) (blk_embed QcS 2 lo : B2)
+                   (blk_embed QcS 2 hi) (vzero (nrows (ld_A l))))) i)) /\
+  gershgorin (S := B2) false exBM <> s0 /\
+  seqb (s := B2) (ipH (S := B2) 3 (Bop true exBF) exBG) (ipH (S := B2) 3 exBF (Bop true exBG)) = true.
+Proof. exact block_cheby_scalar_bounds_example. Qed.
+
+(* FULL STATEMENT (unproved part), as it stands now (WZ6; supersedes the FULL STATEMENT comment of WZ3 above, whose items
+   (a'') and (c) are done).
+   Statement: for S0 a field with an additive, multiplicative, involutive conjugation, b > 0, M : crs (BlockS S0 b) hermitian,
+   transfer operators with R_l = adjoint P_l, scale_herm sc, k5 ANY of damped_jacobi, spai0, gauss_seidel, ilu0, chebyshev,
+   npre = npost = k, any ncycle, pre_cycles >= 1, direct_coarse true or false, f and g COLUMN vectors (colvecB: entries with zero
+   columns 1..b-1, the embedded static_matrix<T,b,1> values -- for direct_coarse = false the restriction is not needed):
+     ipH (nrows M) (fst (apply k k nc pc lvls scr1 f x1)) g = ipH (nrows M) f (fst (apply k k nc pc lvls scr2 g x2)).
+   PROVED (this round): direct_coarse = true -- C02_apply_symmetric_blocks_direct_coarse[_Qc] (Jacobi / SPAI-0 / Gauss-Seidel
+   under good5), C02_apply_symmetric_blocks_ilu0_direct_coarse (structural level condition),
+   C02_apply_symmetric_blocks_chebyshev_direct_coarse (coefficient condition); the only hypothesis on the coarse solver is that
+   the expanded system is solvable (C02_block_coarse_solve_returns_column_vectors,
+   C02_block_coarse_solve_hermitian_on_column_vectors; the cycle relative to the subspace:
+   C02_apply_hermitian_on_subspace_nc); evaluated on the example hierarchy exBH with a direct solver
+   (C02_example_blocks_direct_coarse_symmetric).  Chebyshev coefficients: alpha_k, beta_k are embedded self-conjugate scalars
+   whenever lower, higher are, the Gershgorin bound of the model always is (C02_block_embedded_scalar_inverse,
+   C02_block_gershgorin_bound_is_scalar, C02_chebyshev_coefficients_hermitian_scalar_bounds,
+   C02_apply_symmetric_blocks_chebyshev_scalar_bounds[_Qc|_noscale_Qc]).
+   NOT proved / left as hypotheses:
+   (d) pre_cycles >= 2 for a hierarchy that consists of the direct solver ALONE (one level; hypothesis pc = 0 \/ nosolve_top):
+       true (the solver ignores x when the system is solvable), not formalised.
+   (e) the level condition (good5 / ilu0_level_ok_nc / cheby_coefs_herm) is required of the matrix of the LSolve level as
+       well, although no smoother is built there (inherited from build_hier_herm).
+   (f) chebyshev with scale = true: hermitian-ness of the inverted diagonal blocks (third conjunct of cheby_coefs_herm) stays
+       a per-level hypothesis (follows from herm_inverse when the diagonal blocks are invertible on both sides; not wired).
+   (g) over a general S0 the self-conjugacy of the Frobenius norm (sadj (sm_norm l) = sm_norm l) is a hypothesis of
+       C02_block_gershgorin_bound_is_scalar (no law relates sadj to ssqrt / sabs in Scalar); closed at Qc.
+   On the implementation the full statement is CHECKED exactly for all five smoothers (tools/props/c02_block.py). *)
